@@ -61,12 +61,12 @@ type Section struct {
 }
 
 type Exchange struct {
-	URL      string // url.Parse(key).String()
-	RawURL   string
-	Status   int
-	Headers  map[string]string
-	Body     []byte
-	Off, Len uint64 // absolute location of the response item
+	URL        string // url.Parse(key).String()
+	RawURL     string
+	Status     int
+	Headers    map[string]string
+	Body       []byte
+	Off, Len   uint64 // absolute location of the response item
 	HeaderCBOR []byte
 }
 
@@ -86,12 +86,12 @@ type Signatures struct {
 }
 
 type Parsed struct {
-	Version    string
-	Primary    *string
-	Manifest   *string
-	Signatures *Signatures
-	Sections   []Section
-	Exchanges  []Exchange
+	Version       string
+	Primary       *string
+	Manifest      *string
+	Signatures    *Signatures
+	Sections      []Section
+	Exchanges     []Exchange
 	SectionsStart uint64
 }
 
